@@ -21,10 +21,20 @@ import (
 )
 
 var (
-	DDP    = filepath.Join(ev.Build, "ddp")
+	// DDP is the install tree built from the current /repo state (exported by ./run as DDPPATH)
+	DDP    = envOr("DDPPATH", filepath.Join(ev.Build, "ddp"))
 	Kddp   = filepath.Join(DDP, "bin", "kddp")
 	Locale = filepath.Join(ev.Build, "locale")
+	// VDir holds what was built from /verif for this state (ddpmc, C harness objects)
+	VDir = envOr("VERIF_VDIR", ev.Build)
 )
+
+func envOr(k, d string) string {
+	if v := os.Getenv(k); v != "" {
+		return v
+	}
+	return d
+}
 
 var (
 	compOnce sync.Once
